@@ -35,7 +35,7 @@ SmPatterns ==
 SmFlags == {"", "g", "y", "gy"}
 Templates == {<<>>, U("x"), U("$$"), U("$&"), U("$`"), U("$'"), U("$1"), U("$2"), U("$01"), U("$10"), U("$0"), U("$"),
               U("$$&"), U("$1$1"), U("[$&|$`|$']"), U("$3"), U("$&$&"), U("a$")}
-QuickTemplates == {<<>>, U("$$"), U("$&"), U("$1"), U("$2"), U("$01"), U("$10"), U("$0"), U("[$&|$`|$']"), U("$$&")}
+QuickTemplates == {<<>>, U("$$"), U("$&"), U("$1"), U("$2"), U("$01"), U("$10"), U("$0"), U("[$&|$`|$']"), U("$$&"), U("$&-$&")}
 \* a variant = [m |-> method, t |-> template | fn |-> replacer | lim |-> limit (-1 = undefined)], li0 = lastIndex before the call
 Variants ==
   {[m |-> "match"], [m |-> "search"]}
@@ -44,6 +44,9 @@ Variants ==
   \cup {[m |-> "replace", fn |-> f] : f \in FnNames}
   \cup {[m |-> "replaceAll", t |-> t] : t \in {U("x"), U("$&$1")}} \cup {[m |-> "replaceAll", fn |-> "fnArgs"]}
 Li0s == {0, 1}
+\* for global / sticky regexes a few variants are also called right after an exec() on the same subject, so that the engine's
+\* private copy of lastIndex is not the initial one (the judge takes the lastIndex observed just before the call as pre-state)
+AfterExec == {[m |-> "match"], [m |-> "search"], [m |-> "split", lim |-> -1], [m |-> "replace", t |-> U("$&")]}
 
 \* ---------------- Enum ---------------------------------------------------------------------------------
 VARIABLES ph, cur, tid, step, mli, bad
@@ -61,7 +64,7 @@ EnumNext ==
      \/ \E a \in SmPatterns :
           /\ ph' = "smpat" /\ cur' = [kind |-> "smpat", ast |-> a, src |-> Render(a)]
      \/ /\ ph' = "smgrid"
-        /\ cur' = [kind |-> "smgrid", flags |-> SmFlags, subjects |-> SmSubjects, variants |-> Variants, li0 |-> Li0s]
+        /\ cur' = [kind |-> "smgrid", flags |-> SmFlags, subjects |-> SmSubjects, variants |-> Variants, li0 |-> Li0s, afterexec |-> AfterExec]
 EnumEmit == ph = "start" \/ PrintT(ToJson(cur))
 \* laws of the reference API evaluated while enumerating (INVARIANT in the Enum configuration)
 SmLaw(a) ==
@@ -172,7 +175,7 @@ SameCall(act, exp) ==
   /\ IF exp.o = "value" THEN SameVal(act.v, exp.v) /\ act.idx = exp.idx /\ SameVal(act.li, exp.li)
      ELSE act.cls = exp.v.u
 SmVerdict(r) ==
-  LET rxv == SmRx(r)  li == VInt(r.li0)
+  LET rxv == SmRx(r)  li == VInt(r.li1)          \* li1: lastIndex observed just before the call (= li0 unless an exec() came first)
       ref == RefCall(rxv, r.s, li, r.var, {})
       act == IF r.out.o = "throw" THEN [o |-> "throw", cls |-> U(r.out.cls)] ELSE r.out
   IN IF r.out.o \in {"value", "throw"} /\ SameCall(act, ref) THEN [id |-> r.id, v |-> "pass", dev |-> "", exp |-> ref]
